@@ -187,7 +187,9 @@ func replaceWord(s, lit, tok string) string {
 			b.WriteString(s)
 			return b.String()
 		}
-		if i > 0 && (s[i-1] == '/' || s[i-1] == '>') {
+		if i > 0 && (s[i-1] == '/' || s[i-1] == '>' || s[i-1] == '_' || s[i-1] == '-' || s[i-1] == '.' ||
+			(s[i-1] >= '0' && s[i-1] <= '9') || (s[i-1] >= 'a' && s[i-1] <= 'z') || (s[i-1] >= 'A' && s[i-1] <= 'Z')) {
+			// the tail of a longer path or file name (embed_a.go for the input a.go): not a spelling of the input
 			b.WriteString(s[:i+len(lit)])
 		} else {
 			b.WriteString(s[:i])
